@@ -6,6 +6,7 @@ import FractopoModel.Generated.ParamTable
 import FractopoModel.Generated.BranchBoundary
 import FractopoModel.Generated.BoundaryLines
 import FractopoModel.Generated.NetworkInit
+import FractopoModel.Generated.LineDataCache
 /-!
 # C08 — network parameters equal the published definitions
 -/
@@ -200,6 +201,49 @@ end boundary
 
 example : ∃ n : NetIn, n.X = 1 ∧ n.area > 0 ∧ n.param "Connections per Branch" = some (.num 2) :=
   ⟨⟨1, 0, 0, 4, [2, 2], [1, 1, 1, 1], 4, true, 3, fun x => x⟩, by decide +kernel⟩
+
+/-! ### the column cache of `LineData` (regenerated from its checked shape) -/
+
+/-- the weight of a boundary-intersection count: 1, 2, 0 for 0, 1, 2 ends on the boundary -/
+def w012 (c : Int) : Int := if c = 0 then 1 else if c = 1 then 2 else 0
+
+
+/-- **Length weights come from the boundary counts.** With no weight column in the wrapped frame, the regenerated `LineData.length_boundary_weights`
+maps the regenerated `intersection_count_to_boundary_weight` over the line's boundary-intersection counts (1, 2, 0 for 0, 1, 2) and stores the result under
+its own column. -/
+theorem C08_linedata_weights (counts : List Int) (cols : LineCols) (h : cols.boundary_weight = none) (hc : ∀ c ∈ counts, c = 0 ∨ c = 1 ∨ c = 2) :
+    Gen.ld_length_boundary_weights Gen.intersection_count_to_boundary_weight counts.length counts cols =
+      .ok (counts.map w012, { cols with boundary_weight := some (counts.map w012) }) := by
+  unfold Gen.ld_length_boundary_weights
+  rw [h]
+  have : counts.mapM Gen.intersection_count_to_boundary_weight = .ok (counts.map w012) := by
+    induction counts with
+    | nil => rfl
+    | cons c cs ih =>
+      have hcs := ih (fun x hx => hc x (by simp [hx]))
+      rw [List.mapM_cons, hcs]
+      rcases hc c (by simp) with h0 | h1 | h2
+      · subst h0; rfl
+      · subst h1; rfl
+      · subst h2; rfl
+  simp only [this, List.length_map, if_true]
+
+
+/-- **Weighted lengths are own length × weight.** With neither a length nor a weight column in the wrapped frame and one boundary count per line, the
+regenerated `LineData.length_array` is the line lengths times the weights of their boundary counts, stored under the length column (and the weights
+under theirs). -/
+theorem C08_linedata_lengths (lengths : List Rat) (counts : List Int) (cols : LineCols) (hl : cols.length = none) (hw : cols.boundary_weight = none)
+    (hne : counts ≠ []) (hrows : lengths.length = counts.length) (hc : ∀ c ∈ counts, c = 0 ∨ c = 1 ∨ c = 2) :
+    ∃ cols', Gen.ld_length_array Gen.intersection_count_to_boundary_weight lengths counts cols =
+      (.ok (List.zipWith (fun (l : Rat) (k : Int) => l * (k : Rat)) lengths (counts.map w012)), cols') ∧
+      cols'.length = some (List.zipWith (fun (l : Rat) (k : Int) => l * (k : Rat)) lengths (counts.map w012)) ∧ cols'.boundary_weight = some (counts.map w012) := by
+  unfold Gen.ld_length_array
+  rw [hl]
+  have hpos : counts.length > 0 := by cases counts with | nil => exact absurd rfl hne | cons _ _ => simp
+  simp only [hpos, if_true]
+  rw [hrows, C08_linedata_weights counts cols hw hc]
+  exact ⟨_, rfl, rfl, rfl⟩
+
 
 /-- **A Network's values come from its own traces, not from what an earlier analysis left in the caller's frame.** In the regenerated
 `Network.__post_init__` everything the Network keeps is a function of the copy taken of the caller's frame at construction; the length, weight and
